@@ -402,7 +402,7 @@ def leg_ambient_env(pid, tier, seed, h):
             return None
         return json.load(open(out))
 
-    def digest(extra_env, spy):
+    def digest(extra_env, spy, cwd=None):
         e = dict(os.environ)
         e.update(extra_env)
         if spy:
@@ -411,7 +411,7 @@ def leg_ambient_env(pid, tier, seed, h):
         dout = os.path.join(h["logs"], "%s.ambient.digest.txt" % pid)
         if os.path.exists(dout):
             os.remove(dout)
-        rc, txt = _run([binary, "digest", "C15", "--tier", "quick", "--seed", str(seed), "--out", dout], h["verif"], env=e, timeout=1800)
+        rc, txt = _run([binary, "digest", "C15", "--tier", "quick", "--seed", str(seed), "--out", dout], cwd or h["verif"], env=e, timeout=1800)
         if rc != 0 or not os.path.exists(dout):
             return None
         return open(dout).read().split("\n")
@@ -424,6 +424,15 @@ def leg_ambient_env(pid, tier, seed, h):
     base_sigs = set(v["sig"] for v in base.get("violations", []))
     viol = []
     runs = 1
+    if base_digest is not None:
+        # the working directory is ambient too: same digest from an empty directory and from /
+        alt = os.path.join(h["logs"], "empty_cwd")
+        os.makedirs(alt, exist_ok=True)
+        for d in (alt, "/"):
+            dd = digest({}, False, cwd=d)
+            if dd is not None and dd != base_digest:
+                viol.append({"sig": "C15:ambient-cwd", "what": "the digest of (tree, program, table) differs when the process runs in the working directory %s instead of %s" % (d, h["verif"]), "case": "", "count": 1, "detail": {"cwd": d}})
+                break
     without_effect = []
     for name in names[:6]:
         hit = False
